@@ -32,17 +32,23 @@ def save_meta(name, m):
 
 
 def run_checks(name, checks):
+    """Runs the quick checks against a scratch worktree of /repo with the patch applied, from a scratch copy of
+    /verif (so that /repo, /verif/evidence and /verif/build are never touched and several runs can go on at once)."""
     patch = os.path.join(VERIF, "seeded", name, "patch.diff")
-    st = subprocess.run(["git", "-C", "/repo", "status", "--porcelain"], capture_output=True, text=True).stdout.strip()
-    if st:
-        sys.exit("refusing: /repo has uncommitted changes:\n" + st)
-    subprocess.check_call(["git", "-C", "/repo", "apply", patch])
+    wt = "/tmp/seedrun_" + name
+    vc = "/tmp/verifcopy_" + name
+    subprocess.call(["git", "-C", "/repo", "worktree", "remove", "--force", wt], stderr=subprocess.DEVNULL)
+    shutil.rmtree(vc, ignore_errors=True)
+    subprocess.check_call(["git", "-C", "/repo", "worktree", "add", "-q", "--detach", wt, "HEAD"])
     m = load_meta(name)
     res = m.setdefault("checks_run", {})
     try:
+        subprocess.check_call(["git", "-C", wt, "apply", patch])
+        subprocess.check_call(["rsync", "-a", "--exclude", "build", "--exclude", ".git", "--exclude", "replays", VERIF + "/", vc + "/"])
+        env = dict(os.environ, VERIF_REPO=wt)
         for c in checks:
             t0 = time.time()
-            r = subprocess.run([os.path.join(VERIF, "check"), c, "quick"], cwd=VERIF, capture_output=True, text=True)
+            r = subprocess.run([os.path.join(vc, "check"), c, "quick"], cwd=vc, env=env, capture_output=True, text=True)
             viol = [l for l in r.stdout.splitlines() if l.startswith("VIOLATION")]
             sigs = [l.strip() for l in r.stderr.splitlines() if l.startswith("  C") or l.startswith("  HARNESS")]
             res[c] = {"exit": r.returncode, "violations": len(viol), "first": [s[:300] for s in sigs[:3]], "wall_s": round(time.time() - t0, 1)}
@@ -50,12 +56,11 @@ def run_checks(name, checks):
             if r.returncode not in (0, 1):
                 print(r.stderr[-1500:])
     finally:
-        subprocess.check_call(["git", "-C", "/repo", "checkout", "--", "."])
-        # evidence and replays produced against a modified tree are not kept
-        subprocess.call(["git", "-C", VERIF, "checkout", "--", "evidence"])
-        subprocess.call(["git", "-C", VERIF, "clean", "-fdq", "replays"])
+        subprocess.call(["git", "-C", "/repo", "worktree", "remove", "--force", wt])
+        shutil.rmtree(vc, ignore_errors=True)
     m["detected_by"] = sorted(k for k, v in res.items() if v["exit"] == 1)
     m["missed_by"] = sorted(k for k, v in res.items() if v["exit"] == 0)
+    m["how_run"] = "scratch worktree of /repo HEAD + patch.diff, checks run from a copy of /verif with VERIF_REPO pointing at it"
     save_meta(name, m)
 
 
